@@ -185,3 +185,16 @@ CHECKS["C19"] = dict(
          "order and every other byte unchanged; a refused (unaligned) write must change nothing and an aligned write must not be refused; the "
          "simulator must execute the instruction that was written where pc is set, and -bin -address must place a raw file where it says.",
     note="Interactive 'asm' cannot be scripted (every source line is answered 'Unknown command'); in-process assembly histories are covered by C13.")
+
+CHECKS["C18"] = dict(
+    level="model_checking", design_ref="DESIGN.md 4/C18",
+    technique="exhaustive enumeration of listing programs per CPU (every corpus / decoder-derived instruction in groups of four, plus data-between-code, "
+              "two-segment, macro, include, .repeat and label variants); structural listing parser with a format-agnostic 'exists a consistent "
+              "reading' oracle against the output image and the real decoder",
+    text="For each of the 68 CPUs every instruction of its corpus (or of the decoder-derived templates) is assembled with -l in programs of four, and "
+         "seven structural variants are added (data between code, two .org segments, inside a macro, included with and without .list, .repeat, "
+         "labels/.export); every instruction line's hex groups must spell exactly the output bytes of its span in some group order and byte order, "
+         "the text must be the real decoder's rendering of exactly those bytes, the data-section dump must equal the output bytes, every output byte "
+         "must be covered by a line or the dump, and the symbol table and low/high summary must match the run.",
+    note="A CPU whose listing does not put the first instruction at the .org address in plain hex (octal agc/pdp8, page/offset tms1000/1100, "
+         "ps2_ee_vu0) is reported unjudged; upper/lower pair CPUs are not compared textually; hex-looking mnemonics are resolved by trying every split.")
